@@ -57,7 +57,7 @@ Clo(S, k) == IF k = 0 THEN S ELSE Clo(S \cup UNION {IdealDeps(n) : n \in S}, k -
 Closure(S) == Clo(S, Cardinality(Plain))
 
 Fresh ==
-    AfterOk => \A n \in Closure({Norm(LastH.targs[i]) : i \in 1..Len(LastH.targs)}) :
+    AfterOk => \A n \in Closure({NormAt(LastH.cwd, LastH.targs[i]) : i \in 1..Len(LastH.targs)}) :
                    ReadVal(n) = Ideal(n)
 
 (***************************************************************************)
@@ -95,13 +95,13 @@ NoOverBuild ==
 AlwaysTarget(t) == \E d \in gh.seen[t].deps : d.n = ALWAYS
 OnAlways(n) == \E m \in Closure({n}) \cap Plain : AlwaysTarget(m)
 NoUnderBuild ==
-    AfterOk => \A n \in Closure({Norm(LastH.targs[i]) : i \in 1..Len(LastH.targs)}) \cap Plain :
+    AfterOk => \A n \in Closure({NormAt(LastH.cwd, LastH.targs[i]) : i \in 1..Len(LastH.targs)}) \cap Plain :
                    OnAlways(n) \/ ~MustRun(n)
 
 \* at most once per run (C05, C07, C14)
 \* (a target named on the command line of a forced `redo` is rebuilt by that request
 \* even if a dependent already brought it up to date: one extra run, as in a serial build)
-Forced(t) == (cmd.kind = "redo" /\ t \in {Norm(cmd.targs[i]) : i \in 1..Len(cmd.targs)}) \/ t \in gh.inner
+Forced(t) == (cmd.kind = "redo" /\ t \in {NormAt(cmd.cwd, cmd.targs[i]) : i \in 1..Len(cmd.targs)}) \/ t \in gh.inner
 NoDupRun == \A t \in Plain :
                Cardinality({i \in 1..Len(ran) : ran[i] = t}) <= (IF Forced(t) THEN 2 ELSE 1)
 
@@ -205,7 +205,7 @@ OodUpper == Quiet => \A t \in QueryOut("ood", runid + 1) :
                 \/ \E m \in SeenClo({t}, Cardinality(Plain)) \cap Plain : Stamped(m) /\ MustRun(m)
 
 OodEmptyAfterBuild ==
-    AfterOk => \A n \in Closure({Norm(LastH.targs[i]) : i \in 1..Len(LastH.targs)}) \cap Plain :
+    AfterOk => \A n \in Closure({NormAt(LastH.cwd, LastH.targs[i]) : i \in 1..Len(LastH.targs)}) \cap Plain :
                    AlwaysTarget(n) \/ n \notin QueryOut("ood", runid + 1)
                    \/ \E m \in Closure({n}) \cap Plain : AlwaysTarget(m)
 
